@@ -39,9 +39,18 @@ def _work(args):
     if force == "c18":      # the same programs un-decorated, decorated, decorated with live output
       cfg["spied"], cfg["live"] = (tid % 3 != 0), (tid % 3 == 2)
       cfg["early"] = rng.random() < 0.4      # posts that race start_at (and the live output of the start)
+      cfg["anon"] = rng.random() < 0.3       # an active object that was given no name
+      cfg["wrapped"] = rng.random() < 0.3    # (un-decorated states only) the state functions carry a decorator of the user's own
     if force == "c21":      # decorated states, live spy and live trace on, a two-state chart that makes a trace record per A
       cfg["spied"], cfg["live"], cfg["toggle"] = True, True, True
       cfg["early"] = rng.random() < 0.3
+    if force == "c23":      # what the object says about itself (state_name, state_fn): nested or two-state chart, named or anonymous object
+      cfg["names"] = True
+      cfg["spied"] = rng.random() < 0.7
+      cfg["live"] = cfg["spied"] and rng.random() < 0.3
+      cfg["nested"], cfg["toggle"] = [(True, False), (True, False), (False, True), (False, False)][tid % 4]
+      cfg["anon"] = rng.random() < 0.5
+      cfg["early"] = rng.random() < 0.2
     kind = kinds[tid % len(kinds)]
     if kind == "guided" and guided:
       g = guided[tid % len(guided)]
@@ -73,7 +82,7 @@ def run_batch(n, kinds=("random", "pct", "random", "guided"), caps=(2, 3, 5, 8),
   return [x for part in res for x in part]
 
 
-CLAUSE_PROP = {"LiveSpy": "C21", "LiveTrace": "C21", "LostWake": "C04", "Order": "C04", "Lost": "C04", "Twice": "C04", "DispatchNotPop": "C04", "RtcOverlap": "C04",
+CLAUSE_PROP = {"NameAfterStart": "C23", "NameAtRest": "C23", "LiveSpy": "C21", "LiveTrace": "C21", "LostWake": "C04", "Order": "C04", "Lost": "C04", "Twice": "C04", "DispatchNotPop": "C04", "RtcOverlap": "C04",
                "RotateNotFull": "C04", "Pop": "C04", "NoProgress": "C05", "PostBlocked": "C05", "Error": "C05",
                "PostBack": "C16", "PostFront": "C16", "Read": "C04"}
 
